@@ -10,7 +10,7 @@ late = [sid for sid, m in rows if re.search(r'first (MISSED|UNDECIDED)|would hav
 esc = lambda t: t.replace('|', '\\|')
 txt = '''## 9. Seeded changes (independent sub-agents, each given only the property text and a scratch worktree)
 
-%d changes in eleven batches. Each was produced by a fresh sub-agent that saw only the property text (plus, from batch 2 on, a one-line
+%d changes in twelve batches. Each was produced by a fresh sub-agent that saw only the property text (plus, from batch 2 on, a one-line
 "do not reuse this site" hint naming earlier changes) and its own worktree under /tmp; each was **confirmed** with
 `tools/seed_confirm.sh` (existing suite passes with the change; the demonstration fails with it and passes without it; log in
 `seeded/<id>/confirm.log`) and **evaluated** with `tools/seed_eval.sh` (the change applied in a scratch worktree, the checks pointed at
@@ -47,7 +47,9 @@ dropped de-duplication in a function outside Verus' reach) - bounded stand-ins n
 a mutant can make a proof that takes a minute run for hours (C06-5: float products in CBMC): no check keeps a harness limit above the default. Batch 11: three changes hit clauses that no obligation decided at all (C14-3 the liveness
 sentence, C17-5 several beacons per text, C18-4 the key source of a configured node) - each got a bounded stand-in in the quick tier
 (mesh_formation.rs, two-beacon texts in beacon_layout.rs, configuration cases in keys_roundtrip.rs); C15-5 showed a statement clause
-('with its routes') whose obligation was listed under the neighbouring property only.
+('with its routes') whose obligation was listed under the neighbouring property only. Batch 12: the node-level drivers had blind spots where the code has
+separate paths - plain sessions (C10-5), priority-tagged frames (C13-6), a restarted node (C02-6), a failing tick (C15-6) - all four are
+scenarios of the drivers now; C01-5 was caught by the stand-in written one batch earlier.
 '''
 p = os.path.join(V, 'DESIGN.md')
 s = open(p).read()
